@@ -1,5 +1,6 @@
 """C07 -- score-ranked distance suppression keeps a separated, dominating set"""
 from .common import *
+from . import C11 as _c11
 
 TITLE = "Score-ranked distance suppression keeps a separated, dominating set"
 EXPLANATION = (
@@ -319,6 +320,7 @@ def o75(ctx):
 
 def _obligations():
     return [
+        Obligation("O7.9", "score / angle maps given by path are read as written (shared with C11)", lambda ctx: (_c11.o111(ctx), _c11.o115(ctx)), floor=37),
         Obligation("O7.1", "clean_by_distance: group isolation, visit order, distance of complete positions < d, self-exclusion, kept-only", o71, floor=14),
         Obligation("O7.5", "scores_extract_particles: threshold, descending order, radius = diameter, tree/index agreement, fill wiring", o75, floor=16),
     ]
